@@ -230,10 +230,12 @@ inline Session::Channel::Channel(Session& session, std::size_t queueCapacity, Wr
   // The magic number is used to indentify the queue in the memory dump
   new (buffer) std::uint64_t(0xFE213F716D34BCBC);
   buffer += sizeof(std::uint64_t);
+  BINLOG_VERIF_POINT("channel-magic-set");
 
   // Session* is used to separate the queues of different sessions of the program
   new (buffer) Session*(&session);
   buffer += sizeof(Session*);
+  BINLOG_VERIF_POINT("channel-session-set");
 
   // Queue is used normally to store log events, and also during recovery,
   // to determine the unconsumed parts of the buffer.
@@ -249,6 +251,7 @@ inline Session::Channel::~Channel()
   // clear magic number - do not recover invalid data
   std::uint64_t magic = 0;
   memcpy(_queue.get(), &magic, sizeof(magic));
+  BINLOG_VERIF_POINT("channel-magic-cleared");
 
   // destroy queue
   queue().~Queue();
@@ -341,6 +344,7 @@ Session::ConsumeResult Session::consume(OutputStream& out)
   if (_consumeClockSync)
   {
     out.write(_clockSync.data(), _clockSync.ssize());
+    BINLOG_VERIF_POINT("consume-clocksync-written");
     result.bytesConsumed += std::size_t(_clockSync.ssize());
     _consumeClockSync = false;
   }
@@ -389,6 +393,7 @@ Session::ConsumeResult Session::consume(OutputStream& out)
         // data wraps around the end of the queue, consume the second half as well
         out.write(data.buffer2, std::streamsize(data.size2));
       }
+      BINLOG_VERIF_POINT("consume-data-written");
 
       reader.endRead();
       result.bytesConsumed += data.size();
